@@ -579,51 +579,63 @@ def gen_near_tie_posexp(rng, f, count):
                 out.append((pf(f, ds[:c], ds[c:], E + len(ds) - c), fam))
     return out[:count]
 
-_POW10_MID = {}
-def pow10_midpoints(f):
-    """decimal exponents n for which a midpoint M of two adjacent floats lies in [10^n, 10^n (1 + 10^-18)):
-    the first 19 significant digits of every decimal just above M are exactly 1000000000000000000 (the
-    19-digit significand handed to the later stages is itself a power of ten) and the extended-precision stage
-    cannot decide.  Returns (n, m, k) with M = m 2^k."""
-    if f in _POW10_MID:
-        return _POW10_MID[f]
-    from fractions import Fraction
+_PREFIX_MID = {}
+def prefix_midpoints(f, w):
+    """for a 19-digit decimal significand w (10^18 <= w < 10^19): the decimal exponents n for which a midpoint M
+    of two adjacent floats lies in [w 10^n, (w+1) 10^n) - every decimal just above M then has w as its first 19
+    significant digits, is truncated (`many_digits`), and cannot be decided from w and w+1 alone, so it reaches the
+    big-integer stage with exactly this significand.  Returns (n, m, k) with M = m 2^k (exact search, all n)."""
+    key = (f, w)
+    if key in _PREFIX_MID:
+        return _PREFIX_MID[key]
     out = []
-    lo, hi = (-330, 310) if f == "f64" else (-50, 40)
+    lo, hi = (-345, 295) if f == "f64" else (-66, 22)
     for n in range(lo, hi):
-        N, D = (10 ** n, 1) if n >= 0 else (1, 10 ** (-n))
+        N, D = (w * 10 ** n, 1) if n >= 0 else (w, 10 ** (-n))
         b = py_rne(f, N, D)
         if b == 0 or b >= inf_bits(f) - 1:
             continue
         for bb in (b - 1, b):
             m, k = midpoint_above(f, bb)
             Mn, Md = (m << k, 1) if k >= 0 else (m, 1 << (-k))
-            rel = Fraction(Mn * D, Md * N) - 1
-            if 0 <= rel < Fraction(1, 10 ** 18):
+            # w 10^n <= M < (w+1) 10^n   <=>   N Md <= Mn D < (N + 10^n-part) Md
+            if N * Md <= Mn * D and Mn * D < (N + (10 ** n if n >= 0 else 1)) * Md:
                 out.append((n, m, k))
-    _POW10_MID[f] = out
+    _PREFIX_MID[key] = out
     return out
 
-def gen_pow10_prefix(rng, f):
-    """inputs just above / just below / at those midpoints, with 21 .. 60 digits and every placement of the point"""
+def gen_prefix_near_mid(rng, f, ws, label="T-prefix"):
+    """inputs just above / just below / at the midpoints of `prefix_midpoints` for each significand in `ws`,
+    with 20 .. 60 .. all digits and several placements of the point"""
     out = []
-    for (n, m, k) in pow10_midpoints(f):
-        d, e = dyadic_to_dec(m, k)           # M = d x 10^e exactly
-        digs = str(d)
-        for nd in (20, 21, 25, 40, 60, len(digs)):
-            if nd > len(digs):
-                continue
-            cut = len(digs) - nd
-            up = str(d // 10 ** cut + (1 if cut else 0))
-            dn = str(d // 10 ** cut) if cut else str(d * 10 - 1)
-            for dg, ee, fam in ((up, e + cut, "T-pow10-above"), (dn, e + cut if cut else e - 1, "T-pow10-below")):
-                for (a, b, x) in placements(rng, dg, ee, 1)[:3]:
-                    if I32MIN <= x <= I32MAX:
-                        out.append((pf(f, a, b, x), fam))
-        for far in (1, 20, 40, 998):
-            out.append((pf(f, digs[:1], digs[1:] + "0" * far + "1", e + len(digs) - 1), "T-pow10-tie+far"))
-        out.append((pf(f, digs, "", e), "T-pow10-exact"))
+    for w in ws:
+        for (n, m, k) in prefix_midpoints(f, w):
+            d, e = dyadic_to_dec(m, k)           # M = d x 10^e exactly
+            digs = str(d)
+            for nd in (20, 21, 25, 40, 60, len(digs)):
+                if nd > len(digs):
+                    continue
+                cut = len(digs) - nd
+                up = str(d // 10 ** cut + (1 if cut else 0))
+                dn = str(d // 10 ** cut) if cut else str(d * 10 - 1)
+                for dg, ee, fam in ((up, e + cut, label + "-above"), (dn, e + cut if cut else e - 1, label + "-below")):
+                    for (a, b, x) in placements(rng, dg, ee, 1)[:3]:
+                        if I32MIN <= x <= I32MAX:
+                            out.append((pf(f, a, b, x), fam))
+            for far in (1, 20, 40, 998):
+                out.append((pf(f, digs[:1], digs[1:] + "0" * far + "1", e + len(digs) - 1), label + "-tie+far"))
+            out.append((pf(f, digs, "", e), label + "-exact"))
     return out
+
+SPECIAL_PREFIXES = [10 ** 18, 10 ** 19 - 1, 2 ** 63, 2 ** 63 - 1, 2 ** 63 + 1, 5 * 10 ** 18, 10 ** 18 + 1, 2 * 10 ** 18,
+                    1844674407370955161, 1844674407370955162, 9007199254740992000, 9007199254740993000,
+                    1677721600000000000, 9999999999999999990, 1000000000000000010]
+
+def gen_pow10_prefix(rng, f):
+    """significands with special structure (a power of ten, all nines, 2^63 and its neighbours, 2^64/10, 2^53 and
+    2^24 padded ...) reaching the big-integer stage - the places where a shortcut in the digit / exponent
+    book-keeping (`scientific_exponent`, the w / w+1 evaluation, `mantissa + 1`) can go wrong for one value only"""
+    return gen_prefix_near_mid(rng, f, SPECIAL_PREFIXES, "T-pow10")
 
 def gen_sparse_posexp(rng, f, count):
     """D x 10^E (E >= 135) with D = A 2^(64k) + c: a run of k all-zero limbs below the top of the big
